@@ -79,12 +79,12 @@ func collectTrace(e *Env, o ro.Observable[int], name string) (*Rec, *SubHandle) 
 	rec := e.NewRec(name)
 	h := e.Subscribe(o, rec.Observer(), nil)
 	e.SettleFor(200 * Unit)
-	if !e.K.Capped() && (!h.Returned || h.S == nil || !h.S.IsClosed()) {
+	if !e.K.Capped() && (!h.Ret() || h.Sub() == nil || !h.Sub().IsClosed()) {
 		// the pipeline does not end by itself within the budget (e.g. unlimited Retry over a failing
 		// source): no complete trace to compare; stop it so that it cannot disturb the next subscription
 		e.unterminated = true
-		if h.Returned && h.S != nil {
-			h.S.Unsubscribe()
+		if h.Ret() && h.Sub() != nil {
+			h.Sub().Unsubscribe()
 			e.SettleFor(10 * Unit)
 		}
 	}
